@@ -18,7 +18,10 @@ Statement clause → theorem
 * "new_page without page_by" → `C19_new_page_needs_page_by`
 * "FileNotFoundError for a missing figure file", figure keywords and sizes → `C19_figure_*`
 * "grouping columns missing from the data, a DataFrame together with a figure (or neither), mismatched
-  multi-section list lengths" → `C19_document_*`
+  multi-section list lengths" → `C19_document_*`; over real frames (column names + number of rows), a bad
+  name at any position of any grouping list, in any section, with any number of rows →
+  `C19_missing_name_any_position`, `C19_document_rows_irrelevant`, `C19_document_missing_column_any_rows`,
+  `C19_document_missing_column_any_section`, `C19_document_data_rejects` / `_accepts`
 * "No document object and no RTF string is produced" → `C19_no_output`
 * the value sets the code uses are the documented ones → `C19_tables_documented`
 -/
@@ -252,6 +255,59 @@ theorem C19_document_accepts (a : DocArgs) (h : specDoc a = .accept) : validateD
   · exact h2
   · rw [h3] at h; cases h
 
+/-! ## the document rules over real frames: columns decide, the number of rows does not -/
+
+/-- A grouping name that is not a column — at **any position** of **any** of `group_by`, `page_by`,
+`subline_by` — makes the section illegal (statement side) and makes `_validate_section_columns` refuse it. -/
+theorem C19_missing_name_any_position (cols : List String) (b : BodySpec) (name : String)
+    (h : missingName cols b name = true) : sectionLegal cols b = false ∧ sectionOk cols b = false := by
+  have := sectionOk_false_of_missing cols b name h
+  exact ⟨(sectionLegal_eq cols b).trans this, this⟩
+
+/-- The outcome of `RTFDocument(...)` and the statement's verdict do not depend on the heights of the
+frames: replacing the number of rows of any frame (single, or any section of a list) by any other number —
+0 for a "no observations" table, 1, many — changes neither. -/
+theorem C19_document_rows_irrelevant (d : DfData) (hs : List Nat) (a : DocArgs) :
+    validateDocData (d.withRows hs) a = validateDocData d a ∧
+    specDocData (d.withRows hs) a = specDocData d a := by
+  simp only [validateDocData, specDocData, withRows_toArg, and_self]
+
+/-- A missing grouping column is refused whatever the number of rows of the frame (0 included). -/
+theorem C19_document_missing_column_any_rows (a : DocArgs) (cols : List String) (b : BodySpec) (name : String)
+    (hfig : a.figure = false) (hb : a.body = .single b) (h : missingName cols b name = true) (n : Nat) :
+    validateDocData (.single { cols := cols, nrows := n }) a = .error .validationError := by
+  obtain ⟨df, body, header, figure, fn, src⟩ := a
+  simp only at hfig hb; subst hfig; subst hb
+  simp [validateDocData, DfData.toArg, validateDoc, sectionOk_false_of_missing cols b name h]
+
+/-- Multi-section documents: a missing grouping column in **any one** section `i` — the others may be
+anything, any frame may have any number of rows, the list lengths may or may not match — is refused. -/
+theorem C19_document_missing_column_any_section (a : DocArgs) (fs : List Frame) (bs : List BodySpec)
+    (i : Nat) (name : String) (hfig : a.figure = false) (hb : a.body = .multi bs)
+    (h1 : i < fs.length) (h2 : i < bs.length) (h : missingName fs[i].cols bs[i] name = true) :
+    validateDocData (.multi fs) a = .error .validationError := by
+  obtain ⟨df, body, header, figure, fn, src⟩ := a
+  simp only at hfig hb; subst hfig; subst hb
+  have h1' : i < (fs.map (·.cols)).length := by simpa using h1
+  have hsec : sectionsOk (fs.map (·.cols)) bs = false := by
+    apply sectionsOk_false_of_index _ _ i h1' h2
+    simpa using sectionOk_false_of_missing _ _ name h
+  simp only [validateDocData, DfData.toArg, validateDoc]
+  split
+  · rfl
+  · split
+    · rfl
+    · simp [hsec]
+
+/-- the specification verdict on real frames is met by the validator -/
+theorem C19_document_data_rejects (d : DfData) (a : DocArgs) (h : specDocData d a = .reject) :
+    validateDocData d a = .error .validationError :=
+  C19_document_rejects _ h
+
+theorem C19_document_data_accepts (d : DfData) (a : DocArgs) (h : specDocData d a = .accept) :
+    validateDocData d a = .ok () :=
+  C19_document_accepts _ h
+
 /-! ## nothing is produced -/
 
 /-- If construction raises, the call `RTFDocument(...).rtf_encode()` raises the same exception: there is
@@ -300,6 +356,17 @@ example : specDoc { df := .single ["a", "b"], body := .single { groupBy := some 
     specDoc { df := .multi [["a"], ["b"]], body := .multi [{}] } = .reject ∧
     specDoc { df := .multi [["a"], ["b"]], body := .multi [{}, { pageBy := some ["b"] }],
               header := .nested 2 } = .accept := by decide +kernel
+
+/-- the same on real frames: a zero-row frame with a missing `page_by` column (bad name last), a zero-column
+frame, the empty second section of a list — refused; a zero-row frame with existing columns — accepted -/
+example : specDocData (.single { cols := ["a", "b"], nrows := 0 }) { body := .single { pageBy := some ["a", "z"] } }
+      = .reject ∧
+    specDocData (.single { cols := [], nrows := 0 }) { body := .single { groupBy := some ["a"] } } = .reject ∧
+    specDocData (.multi [{ cols := ["a"], nrows := 3 }, { cols := ["b"], nrows := 0 }])
+      { body := .multi [{}, { sublineBy := some ["z"] }] } = .reject ∧
+    missingName ["b"] { sublineBy := some ["z"] } "z" = true ∧
+    specDocData (.single { cols := ["a", "b"], nrows := 0 }) { body := .single { pageBy := some ["a"] } }
+      = .accept := by decide +kernel
 
 /-- page and figure rules fire on concrete calls -/
 example : specPage (fun f => match f with
